@@ -372,6 +372,16 @@ def main():
             timer_hits.append(os.path.relpath(fpath, repo) + ":" + mm.group(0).strip())
     if not _glob.glob(os.path.join(repo, "wtransport/src/driver/mod.rs")):
         raise Missing("wtransport/src/driver/mod.rs")
+    # … and does anything limit the peer's streams across kinds? (a semaphore shared by the uni
+    # and the bidi path couples the two hand-off pipelines the model keeps apart)
+    sem_hits = []
+    for fpath in sorted(_glob.glob(os.path.join(repo, "wtransport/src/driver/**/*.rs"), recursive=True)):
+        txt = re.sub(r"//[^\n]*", "", strip_tests(open(fpath, encoding="utf-8").read()))
+        if re.search(r"\bSemaphore\b", txt):
+            sem_hits.append(os.path.relpath(fpath, repo))
+    ex["DRIVER_SEMAPHORE_FREE"] = not sem_hits
+    L.append("/-- nothing under wtransport/src/driver/ uses a semaphore -/")
+    L.append(f"abbrev DRIVER_SEMAPHORE_FREE : Bool := {'true' if not sem_hits else 'false'}")
     ex["DRIVER_TIMER_HITS"] = timer_hits[:10]
     ex["DRIVER_TIMER_FREE"] = not timer_hits
     L.append("/-- nothing under wtransport/src/driver/ mentions a timer (tokio::time, timeout, sleep, interval, Duration, Instant) -/")
